@@ -182,6 +182,7 @@ def run(ctx: RuleContext):
     ctx.sub(check_no_memo_between_dtype_and_verdict, ctx)
     ctx.sub(check_last_dotted_component, ctx)
     ctx.sub(check_extraction_sources, ctx)
+    ctx.sub(check_struct_dtype_everywhere, ctx)
 
 
 FAMILY_RE = {
@@ -774,6 +775,40 @@ def check_extraction_sources(ctx):
         raise AnalysisError(f"C03.7: the dtype name is (also) read from `{norm(unknown[0])}`, which is not one of the sources the rule knows "
                             "(.type.__name__, .as_numpy_dtype.__name__, str/repr of the dtype): whether every backend's dtypes still get their documented name is value-level")
     ctx.ok("C03.7", f.qualname, f"{n} reads of the array's dtype, all through .type.__name__ / .as_numpy_dtype.__name__ / the dtype itself")
+
+
+def check_struct_dtype_everywhere(ctx, tag="C03.8"):
+    """A structured NumPy dtype is named by `str(dtype)`, not by `dtype.type.__name__` (which is "void" for all of them):
+    wherever the name is taken from `.type.__name__`, the struct special case (`_dtype_is_numpy_struct_array(dtype)` ->
+    `str(dtype)`) must follow in the same branch -- whatever carries the dtype (an ndarray, a duck-typed wrapper, a
+    `np.void` scalar).  A branch that takes `.type.__name__` without it calls every struct dtype "void": the dtype's own
+    category rejects it and a category listing "void" accepts every struct."""
+    m = ctx.model
+    f = m.func("_array_types._MetaAbstractArray.__instancecheck_str__")
+    n = 0
+    for fn_ in region(m, f):
+        blocks = []
+        for x in ast.walk(fn_.node):
+            for fld in ("body", "orelse", "finalbody"):
+                b = getattr(x, fld, None)
+                if isinstance(b, list) and b and isinstance(b[0], ast.stmt):
+                    blocks.append(b)
+        for b in blocks:
+            for i, st in enumerate(b):
+                if isinstance(st, ast.Assign) and len(st.targets) == 1 and isinstance(st.targets[0], ast.Name) and norm(st.value).endswith(".type.__name__") and "dtype" in norm(st.value):
+                    n += 1
+                    var = st.targets[0].id
+                    follow = b[i + 1:]
+                    ok = any(isinstance(y, ast.If) and any(isinstance(c, ast.Call) and m.is_call_to(fn_, c, "_array_types._dtype_is_numpy_struct_array") for c in ast.walk(y.test))
+                             and any(isinstance(a, ast.Assign) and any(isinstance(t, ast.Name) and t.id == var for t in a.targets) and "str(" in norm(a.value) for a in ast.walk(y))
+                             for y in follow)
+                    if ok:
+                        ctx.ok(tag, fn_.qualname, f"`{short(st, 50)}` is followed by the structured-dtype special case")
+                    else:
+                        ctx.bad(tag, fn_, st, f"`{short(st, 60)}` names the dtype by its scalar type without the structured-dtype special case in this branch: a structured dtype "
+                                "carried by this kind of value is called \"void\"", construct=f"{short(st, 60)} without struct special case")
+    ctx.counters["scalar_type_name_reads"] = n
+    ctx.floor(tag, "scalar_type_name_reads", 1)
 
 
 def check_last_dotted_component(ctx):
